@@ -110,7 +110,8 @@ def gen_seq(ctx, k):
             # when they are transmitted, however long they were held
             fl.now += 3
             sc.add('advance 3')
-            for ad3 in nodes:
+            # ... or nobody says anything: the next message of a node may then be a stall notice (the expiry is noticed while handling it)
+            for ad3 in (nodes if rng.random() < 0.6 else []):
                 n3 = fl.node(ad3)
                 rt3 = model.C('MSG_BM_CURRENT')
                 if (n3.out or n3.held) and not fl.could_answer_any(ad3, rt3):
